@@ -88,6 +88,7 @@ def handle(c):
     stats = {'calls': 0, 'queries': 0, 'runs': 0, 'query_errors': 0, 'reruns': 0}
     kinds = {}
     errs = {}
+    dirty = True
     n = spec['comps'][0]['n']
     for op in c['seq']:
         k = op['op']
@@ -120,6 +121,7 @@ def handle(c):
                 if a2[1].tobytes() != a[1].tobytes():
                     bad('run_model twice from the same state gives different outputs: %r vs %r' % (
                         a[1].tolist()[:6], a2[1].tolist()[:6]))
+            dirty = False
             obs.append(['run', [vid(b[0]), vid(b[1])], [vid(a[0]), vid(a[1])]])
             # the twin contributes to the same run relation
             continue
@@ -128,13 +130,16 @@ def handle(c):
                 for nm, val in op['vals']:
                     q.set_val(nm, val)
             a = snap(p)
+            dirty = True
             obs.append(['set', [vid(b[0]), vid(b[1])], [vid(a[0]), vid(a[1])]])
             continue
         stats['queries'] += 1
         kinds[k] = kinds.get(k, 0) + 1
         err = None
         j0 = j1 = None
-        tw = op.get('tw')
+        # derivative values are compared only at a clean state (the model has been run since the last set_val):
+        # approximated totals at a state whose outputs are not the model's response to its inputs are not defined
+        tw = op.get('tw') if not dirty else None
         if tw:
             try:
                 j0 = p.compute_totals(of=tw[0], wrt=tw[1], return_format='flat_dict')
@@ -157,10 +162,13 @@ def handle(c):
             if j1 is not None:
                 for key in j0:
                     if np.asarray(j0[key]).tobytes() != np.asarray(j1[key]).tobytes():
-                        bad('hidden state: compute_totals %r is %r before %s(%s) and %r after it (inputs and outputs '
-                            'unchanged)' % (key, np.asarray(j0[key]).ravel().tolist()[:6], k,
-                                            {kk: vv for kk, vv in op.items() if kk not in ('op', 'tw')},
-                                            np.asarray(j1[key]).ravel().tolist()[:6]))
+                        a0, a1 = np.asarray(j0[key]).ravel(), np.asarray(j1[key]).ravel()
+                        d = [i for i in range(min(a0.size, a1.size)) if a0[i:i + 1].tobytes() != a1[i:i + 1].tobytes()][:4]
+                        bad('hidden state: compute_totals %r is %r before %s(%s) and %r after it at positions %s '
+                            '(inputs and outputs unchanged)' % (
+                                key, [repr(float(a0[i])) for i in d], k,
+                                {kk: vv for kk, vv in op.items() if kk not in ('op', 'tw')},
+                                [repr(float(a1[i])) for i in d], d))
                         break
         a = snap(p)
         if err is not None and (a[0].tobytes() != b[0].tobytes() or a[1].tobytes() != b[1].tobytes()):
